@@ -49,6 +49,15 @@ def run(ctx):
         bad = [p_ for p_ in consts if not any(cc.pos_dominates(g, p_) for g in guards)]
         C.check(not bad, 'C17-MUST-value', 'CharacterData::check_version_compatibility|true-only-after-a-test', 'character data that is not an enum value is reported compatible with the target version without being validated against the target type: a text that violates the pattern the element has in the target version passes the check, set_version succeeds, and the strict loader rejects the relabelled file',
                 cc.where(bad[0]) if bad else '', sample={'fn': 'CharacterData::check_version_compatibility', 'constant_true_verdicts': len(consts)})
+    if cc is not None:
+        # the enum verdict is the validator's own test: bit of the target version in the item's mask (AutosarVersion::compatible, or the AND itself).
+        # A mask can have holes (items removed and re-introduced), so no ordering / range test on it is equivalent.
+        ccb = [cc] + list(P.closures_of(cc))
+        bit = any(call_matches(t, r'AutosarVersion>?::compatible$') for x in ccb for pos, t in x.iter_calls()) or \
+            any(st['k'] == 'assign' and st['rv']['k'] == 'bin' and st['rv'].get('op') == 'BitAnd' for x in ccb for pos, st in x.iter_stmts())
+        C.check(bit, 'C17-MUST-value', 'CharacterData::check_version_compatibility|enum-verdict-is-the-bit-test',
+                'the enum branch of CharacterData::check_version_compatibility no longer tests the bit of the target version in the item\'s version mask (AutosarVersion::compatible / `&`), which is what the validator does (check_version): masks with holes (items removed and re-introduced) are judged differently by the two',
+                '%s:%d' % (cc.file, cc.line), sample={'fn': 'CharacterData::check_version_compatibility', 'obligation': 'verdict = target bit AND item mask'})
     pe = P.get('ArxmlParser::parse_element')
     pa = P.get('ArxmlParser::parse_attribute_text')
     fe = P.get('ArxmlParser::find_element_in_spec_checked')
